@@ -146,7 +146,7 @@ pub fn gen_spec(seed: u64, focus: &str, tier: &str) -> RunSpec {
     let sched = SchedConfig {
         seed: sr.next_u64(),
         strategy,
-        step_cap: 3_000_000,
+        step_cap: 6_000_000,
         fair_after_step: u64::MAX,
         spurious_ppm: if sr.chance(1, 2) { *sr.pick(&[200u32, 2000, 20000]) } else { 0 },
         stall_ppm: if sr.chance(1, 3) { 500 } else { 0 },
@@ -155,8 +155,8 @@ pub fn gen_spec(seed: u64, focus: &str, tier: &str) -> RunSpec {
         mmap_fault_after: u64::MAX,
         clock_mode: sr.below(4) as u32,
         site_mask: mask,
-        max_run: *sr.pick(&[200u64, 2000, 2000, 20000]),
-        meta_every: *sr.pick(&[1u32, 3, 17, 64]),
+        max_run: *sr.pick(&[100u64, 500, 2000]),
+        meta_every: *sr.pick(&[1u32, 3, 3, 17, 17, 64]),
         explicit: None,
     };
     let mut cfg = cfg;
